@@ -38,34 +38,36 @@ def partition_by_construction(ctx: Ctx) -> None:
         gname, lname = (norm(e) for e in unp[0].targets[0].elts)
         ctx.ok(R, f, unp[0], f'({gname}, {lname}) from one call over `{norm(unp[0].value.args[0])[:40]}`', key=f'{key}:one-call')
         loops = [n for n in walk_local(f.node) if isinstance(n, ast.For) and isinstance(n.iter, ast.Call) and call_name(n.iter) == 'enumerate']
-        if len(loops) != 1 or norm(loops[0].iter.args[0]) != gname or len(loops[0].iter.args) != 1 and kwarg(loops[0].iter, 'start') is not None:
+        if not loops or any(norm(lp_.iter.args[0]) != gname or len(lp_.iter.args) != 1 or kwarg(lp_.iter, 'start') is not None for lp_ in loops):
             ctx.bad(R, f, loops[0] if loops else f.node, f'the group loop is not `for idx, g in enumerate({gname})`', key=f'{key}:enumerate')
             continue
-        lp = loops[0]
-        iname, gvar = (norm(e) for e in lp.target.elts)
-        # the member selection: the one local of the loop body that every yield of this loop slices with (by role: a local assigned in
-        # the loop and used inside the yielded expressions)
-        assigned = [a for a in ast.walk(lp) if isinstance(a, ast.Assign) and isinstance(a.targets[0], ast.Name)]
-        in_yield = {x.id for y in ast.walk(lp) if isinstance(y, ast.Yield) for x in ast.walk(y) if isinstance(x, ast.Name)}
-        cand = [a for a in assigned if a.targets[0].id in in_yield and any(isinstance(x, ast.Name) and x.id in (lname, iname) for x in ast.walk(a.value))]
-        sels = cand if cand else [a for a in assigned if isinstance(a.value, ast.Compare)]
-        if not sels:
-            # the selection written in place inside the yielded expression (no local of its own)
-            inline = [c for y in ast.walk(lp) if isinstance(y, ast.Yield) for c in ast.walk(y) if isinstance(c, ast.Compare)
-                      and any(isinstance(x, ast.Name) and x.id in (lname, iname) for x in ast.walk(c))]
-            sels = [ast.Assign(targets=[ast.Name(id='_', ctx=ast.Store())], value=c, lineno=c.lineno, col_offset=c.col_offset) for c in inline]
-        good = len(sels) == 1 and norm(sels[0].value) in (f'{lname} == {iname}', f'{iname} == {lname}')
-        (ctx.ok if good else ctx.bad)(R, f, sels[0] if sels else lp, f'selection = {lname} == {iname}' if good else
-                                      f'members of group {iname} are selected by `{norm(sels[0].value) if sels else "?"}` instead of `{lname} == {iname}`: rows land in another group or in several', key=f'{key}:selection')
-        # groups may be re-wrapped (tuple(...)) but never re-ordered / filtered between the call and the loop
-        redefs = [a for a in walk_local(f.node) if isinstance(a, ast.Assign) and norm(a.targets[0]) in (gname, lname) and a is not unp[0]]
-        bad_redef = [a for a in redefs if not (isinstance(a.value, ast.Call) and call_name(a.value) in ('array2d_to_tuples',) and norm(a.value.args[0]) in (gname, f'{gname}.T'))]
-        (ctx.ok if not bad_redef else ctx.bad)(R, f, bad_redef[0] if bad_redef else lp, 'groups / locations are not reordered or filtered before the loop' if not bad_redef else
-                                               f'`{norm(bad_redef[0])[:60]}` changes groups/locations after they were computed together', key=f'{key}:no-reorder')
-        # the yielded key is the loop's own group element
-        ys = [y for y in ast.walk(lp) if isinstance(y, ast.Yield) and isinstance(y.value, ast.Tuple)]
-        good = bool(ys) and all(norm(y.value.elts[0]) == gvar for y in ys)
-        (ctx.ok if good else ctx.bad)(R, f, ys[0] if ys else lp, f'each group is labelled by its own key `{gvar}`' if good else 'a group is not labelled by its own key', key=f'{key}:key')
+        # one loop, or one per axis branch: each is checked
+        for lp in loops:
+            sfx = '' if len(loops) == 1 else '@' + _branch_test(f.node, lp)
+            iname, gvar = (norm(e) for e in lp.target.elts)
+            # the member selection: the one local of the loop body that every yield of this loop slices with (by role: a local assigned in
+            # the loop and used inside the yielded expressions)
+            assigned = [a for a in ast.walk(lp) if isinstance(a, ast.Assign) and isinstance(a.targets[0], ast.Name)]
+            in_yield = {x.id for y in ast.walk(lp) if isinstance(y, ast.Yield) for x in ast.walk(y) if isinstance(x, ast.Name)}
+            cand = [a for a in assigned if a.targets[0].id in in_yield and any(isinstance(x, ast.Name) and x.id in (lname, iname) for x in ast.walk(a.value))]
+            sels = cand if cand else [a for a in assigned if isinstance(a.value, ast.Compare)]
+            if not sels:
+                # the selection written in place inside the yielded expression (no local of its own)
+                inline = [c for y in ast.walk(lp) if isinstance(y, ast.Yield) for c in ast.walk(y) if isinstance(c, ast.Compare)
+                          and any(isinstance(x, ast.Name) and x.id in (lname, iname) for x in ast.walk(c))]
+                sels = [ast.Assign(targets=[ast.Name(id='_', ctx=ast.Store())], value=c, lineno=c.lineno, col_offset=c.col_offset) for c in inline]
+            good = len(sels) == 1 and norm(sels[0].value) in (f'{lname} == {iname}', f'{iname} == {lname}')
+            (ctx.ok if good else ctx.bad)(R, f, sels[0] if sels else lp, f'selection = {lname} == {iname}' if good else
+                                          f'members of group {iname} are selected by `{norm(sels[0].value) if sels else "?"}` instead of `{lname} == {iname}`: rows land in another group or in several', key=f'{key}:selection{sfx}')
+            # groups may be re-wrapped (tuple(...)) but never re-ordered / filtered between the call and the loop
+            redefs = [a for a in walk_local(f.node) if isinstance(a, ast.Assign) and norm(a.targets[0]) in (gname, lname) and a is not unp[0]]
+            bad_redef = [a for a in redefs if not (isinstance(a.value, ast.Call) and call_name(a.value) in ('array2d_to_tuples',) and norm(a.value.args[0]) in (gname, f'{gname}.T'))]
+            (ctx.ok if not bad_redef else ctx.bad)(R, f, bad_redef[0] if bad_redef else lp, 'groups / locations are not reordered or filtered before the loop' if not bad_redef else
+                                                   f'`{norm(bad_redef[0])[:60]}` changes groups/locations after they were computed together', key=f'{key}:no-reorder{sfx}')
+            # the yielded key is the loop's own group element
+            ys = [y for y in ast.walk(lp) if isinstance(y, ast.Yield) and isinstance(y.value, ast.Tuple)]
+            good = bool(ys) and all(norm(y.value.elts[0]) == gvar for y in ys)
+            (ctx.ok if good else ctx.bad)(R, f, ys[0] if ys else lp, f'each group is labelled by its own key `{gvar}`' if good else 'a group is not labelled by its own key', key=f'{key}:key{sfx}')
         if src is not None:
             good = norm(unp[0].value.args[0]) == src
             (ctx.ok if good else ctx.bad)(R, f, unp[0], f'grouping values are {src}' if good else f'grouping values are {norm(unp[0].value.args[0])}', key=f'{key}:source')
